@@ -6,7 +6,14 @@ require github.com/xinchentechnote/fin-proto-go v0.0.0
 
 require (
 	github.com/anishathalye/porcupine v1.3.0
+	github.com/stretchr/testify v1.10.0
 	golang.org/x/exp v0.0.0-20250620022241-b7579e27df2b
+)
+
+require (
+	github.com/davecgh/go-spew v1.1.1 // indirect
+	github.com/pmezard/go-difflib v1.0.0 // indirect
+	gopkg.in/yaml.v3 v3.0.1 // indirect
 )
 
 replace github.com/xinchentechnote/fin-proto-go => /repo
